@@ -19,10 +19,12 @@ the fabric table (`Fabrics.fabrics`: fabric index, ACL, group table) is changed 
   (`dm/types/privilege.rs`);
 * `acl.rs`: `Accessor::for_session`.
 
-The group table entries carry one more fact than `Acl.GroupMapping` has: whether the group is
-Groupcast-managed (`mcast_policy.is_some()`), which `Groups::remove` consults. `XGroup` / `XFabric`
-wrap the structures of `Model/Acl.lean` with it; `proj` forgets it again, and every statement about
-the decision is made about `proj` of the configuration.
+The state is the `List Fabric` of `Model/Acl.lean` (whose `GroupMapping.managed` records
+`mcast_policy.is_some()`, which `Groups::remove` consults) plus the fabric records of the key-value
+store. `Model/Acl.lean` also has a first, coarser model of some of these mutators (`fabricsAclAddInit`,
+`groupsRemove`, `fabricsReload`, … : errors collapsed to `none`, no store); the functions here carry the
+error codes, the partial effects of failing operations and the store, and are what the driver runs
+for the history cases.
 
 Import-free apart from `Model/Acl.lean` (the driver links it).
 -/
@@ -38,30 +40,10 @@ def CfgErr.name : CfgErr → String
   | .constraintError => "ConstraintError"
   | .bufferTooSmall => "BufferTooSmall"
 
-/-- `GroupEndpointMapping`: the fields of `GroupMapping` + `mcast_policy.is_some()` -/
-structure XGroup where
-  g : GroupMapping
-  /-- `GroupEndpointMapping::groupcast_managed()` -/
-  managed : Bool
-deriving Repr, Inhabited
-
-/-- `Fabric` (index, ACL, group table) -/
-structure XFabric where
-  fabIdx : Nat
-  acl : List Entry
-  groups : List XGroup
-deriving Repr, Inhabited
-
-def XFabric.toFabric (f : XFabric) : Fabric :=
-  { fabIdx := f.fabIdx, acl := f.acl, groups := f.groups.map (·.g) }
-
-/-- the configuration as `AccessReq::allow` sees it -/
-def proj (s : List XFabric) : List Fabric := s.map XFabric.toFabric
-
 /-! ## `Fabric`: the ACL mutators -/
 
 /-- `Fabric::acl_add(entry)`: PASE entries rejected, index stamped, bounded push; answers the index -/
-def XFabric.aclAdd (f : XFabric) (e : Entry) : Except CfgErr (XFabric × Nat) :=
+def Fabric.xAclAdd (f : Fabric) (e : Entry) : Except CfgErr (Fabric × Nat) :=
   if e.authMode == AuthMode.pase then .error .constraintError
   else if f.acl.length < Consts.maxAclEntriesPerFabric then
     .ok ({ f with acl := f.acl ++ [{ e with fabIdx := some f.fabIdx }] }, f.acl.length)
@@ -69,7 +51,7 @@ def XFabric.aclAdd (f : XFabric) (e : Entry) : Except CfgErr (XFabric × Nat) :=
 
 /-- `Fabric::acl_add_init(init)`; `init` = the outcome of running the initializer. The PASE check is
 commented out in the source; `Vec::push_init` checks the capacity first, then runs the initializer. -/
-def XFabric.aclAddInit (f : XFabric) (init : Except CfgErr Entry) : Except CfgErr (XFabric × Nat) :=
+def Fabric.xAclAddInit (f : Fabric) (init : Except CfgErr Entry) : Except CfgErr (Fabric × Nat) :=
   if f.acl.length < Consts.maxAclEntriesPerFabric then
     match init with
     | .error err => .error err
@@ -77,12 +59,12 @@ def XFabric.aclAddInit (f : XFabric) (init : Except CfgErr Entry) : Except CfgEr
   else .error .resourceExhausted
 
 /-- `Fabric::acl_update(idx, entry)` (no PASE check) -/
-def XFabric.aclUpdate (f : XFabric) (idx : Nat) (e : Entry) : Except CfgErr XFabric :=
+def Fabric.xAclUpdate (f : Fabric) (idx : Nat) (e : Entry) : Except CfgErr Fabric :=
   if f.acl.length ≤ idx then .error .notFound
   else .ok { f with acl := f.acl.set idx { e with fabIdx := some f.fabIdx } }
 
 /-- `Fabric::acl_update_init(idx, init)`: index check, then the initializer, then store + stamp -/
-def XFabric.aclUpdateInit (f : XFabric) (idx : Nat) (init : Except CfgErr Entry) : Except CfgErr XFabric :=
+def Fabric.xAclUpdateInit (f : Fabric) (idx : Nat) (init : Except CfgErr Entry) : Except CfgErr Fabric :=
   if f.acl.length ≤ idx then .error .notFound
   else
     match init with
@@ -90,12 +72,9 @@ def XFabric.aclUpdateInit (f : XFabric) (idx : Nat) (init : Except CfgErr Entry)
     | .ok e => .ok { f with acl := f.acl.set idx { e with fabIdx := some f.fabIdx } }
 
 /-- `Fabric::acl_remove(idx)` -/
-def XFabric.aclRemove (f : XFabric) (idx : Nat) : Except CfgErr XFabric :=
+def Fabric.xAclRemove (f : Fabric) (idx : Nat) : Except CfgErr Fabric :=
   if f.acl.length ≤ idx then .error .notFound
   else .ok { f with acl := f.acl.eraseIdx idx }
-
-/-- `Fabric::acl_remove_all()` -/
-def XFabric.aclRemoveAll (f : XFabric) : XFabric := { f with acl := [] }
 
 /-! ## `AclEntry::init_with`: a wire `AccessControlEntryStruct` becomes an entry -/
 
@@ -197,94 +176,94 @@ def validateReplace (fab : Nat) : Nat → List EntryIn → Except CfgErr Unit
       | .ok _ => validateReplace fab (count + 1) rest
 
 /-- the second pass of `Replace`; `none` = an `unwrap!` fails (`replaceFill_validated`: it cannot) -/
-def replaceFill (f : XFabric) : List EntryIn → Option XFabric
+def replaceFill (f : Fabric) : List EntryIn → Option Fabric
   | [] => some f
   | e :: rest =>
-    match f.aclAddInit (initWith f.fabIdx e) with
+    match f.xAclAddInit (initWith f.fabIdx e) with
     | .ok (f', _) => replaceFill f' rest
     | .error _ => none
 
 /-- `AclHandler::set_acl(fabric, value)`; outer `none` = panic -/
-def handlerSetAcl (f : XFabric) : AclWrite → Option (Except CfgErr XFabric)
+def handlerSetAcl (f : Fabric) : AclWrite → Option (Except CfgErr Fabric)
   | .replace l =>
     match validateReplace f.fabIdx 0 l with
     | .error err => some (.error err)
     | .ok () => (replaceFill f.aclRemoveAll l).map .ok
   | .add e =>
-    match f.aclAddInit (initWith f.fabIdx e) with
+    match f.xAclAddInit (initWith f.fabIdx e) with
     | .error err => some (.error err)
     | .ok (f', _) => some (.ok f')
-  | .update idx e => some (f.aclUpdateInit idx (initWith f.fabIdx e))
-  | .remove idx => some (f.aclRemove idx)
+  | .update idx e => some (f.xAclUpdateInit idx (initWith f.fabIdx e))
+  | .remove idx => some (f.xAclRemove idx)
 
 /-! ## `Groups` -/
 
 /-- the entry found by `iter_mut().find(|e| e.group_id == group_id)`, mutated in place -/
-def xGroupsUpdFirst (gs : List XGroup) (gid : Nat) (u : XGroup → XGroup) : List XGroup :=
+def xGroupsUpdFirst (gs : List GroupMapping) (gid : Nat) (u : GroupMapping → GroupMapping) : List GroupMapping :=
   match gs with
   | [] => []
-  | x :: rest => if x.g.groupId == gid then u x :: rest else x :: xGroupsUpdFirst rest gid u
+  | x :: rest => if x.groupId == gid then u x :: rest else x :: xGroupsUpdFirst rest gid u
 
-def xGroupsFind (gs : List XGroup) (gid : Nat) : Option XGroup := gs.find? (fun x => x.g.groupId == gid)
+def xGroupsFind (gs : List GroupMapping) (gid : Nat) : Option GroupMapping := gs.find? (fun x => x.groupId == gid)
 
-def XGroup.pushEndpoint (x : XGroup) (ep : Nat) : XGroup :=
-  { x with g := { x.g with endpoints := x.g.endpoints ++ [ep] } }
+def GroupMapping.pushEndpoint (x : GroupMapping) (ep : Nat) : GroupMapping :=
+  { x with endpoints := x.endpoints ++ [ep] }
 
 /-- `Groups::add(endpoint_id, group_id, name)` (the name is not modelled). The table is returned
 also on failure: a group that did not exist has then been pushed without endpoints. -/
-def xGroupsAdd (gs : List XGroup) (ep gid : Nat) : List XGroup × Except CfgErr Bool :=
+def xGroupsAdd (gs : List GroupMapping) (ep gid : Nat) : List GroupMapping × Except CfgErr Bool :=
   match xGroupsFind gs gid with
   | some x =>
-    if x.g.endpoints.contains ep then (gs, .ok true)
-    else if x.g.endpoints.length < Consts.groupEndpointsPerFabric then
+    if x.endpoints.contains ep then (gs, .ok true)
+    else if x.endpoints.length < Consts.groupEndpointsPerFabric then
       (xGroupsUpdFirst gs gid (·.pushEndpoint ep), .ok false)
     else (gs, .error .resourceExhausted)
   | none =>
     if gs.length < Consts.maxGroupsPerFabric then
-      let fresh : XGroup := { g := { groupId := gid, endpoints := [], hasAuxAcl := none }, managed := false }
+      let fresh : GroupMapping := { groupId := gid, endpoints := [], hasAuxAcl := none, managed := false }
       if 0 < Consts.groupEndpointsPerFabric then (gs ++ [fresh.pushEndpoint ep], .ok false)
       else (gs ++ [fresh], .error .resourceExhausted)
     else (gs, .error .resourceExhausted)
 
 /-- `group_id.is_some_and(|id| id != entry.group_id)`: the entry is skipped -/
-def removeSkips (gid : Option Nat) (x : XGroup) : Bool :=
+def removeSkips (gid : Option Nat) (x : GroupMapping) : Bool :=
   match gid with
-  | some id => id != x.g.groupId
+  | some id => id != x.groupId
   | none => false
 
 /-- `Groups::remove(endpoint_id, group_id)`; second component: an endpoint was removed -/
-def xGroupsRemove (gs : List XGroup) (ep : Nat) (gid : Option Nat) : List XGroup × Bool :=
+def xGroupsRemove (gs : List GroupMapping) (ep : Nat) (gid : Option Nat) : List GroupMapping × Bool :=
   let gs1 := gs.map (fun x =>
     if removeSkips gid x then x
-    else { x with g := { x.g with endpoints := x.g.endpoints.filter (fun e => e != ep) } })
+    else { x with endpoints := x.endpoints.filter (fun e => e != ep) })
   let removed := gs.any (fun x =>
-    !removeSkips gid x && decide ((x.g.endpoints.filter (fun e => e != ep)).length < x.g.endpoints.length))
-  (gs1.filter (fun x => !x.g.endpoints.isEmpty || x.managed), removed)
+    !removeSkips gid x && decide ((x.endpoints.filter (fun e => e != ep)).length < x.endpoints.length))
+  (gs1.filter (fun x => !x.endpoints.isEmpty || x.managed), removed)
 
 /-- the loop over `endpoints` in `groupcast_join`; `true` = a push failed (the loop stops there) -/
-def joinEndpoints : List Nat → List Nat → List Nat × Bool
+def xJoinEndpoints : List Nat → List Nat → List Nat × Bool
   | cur, [] => (cur, false)
   | cur, e :: rest =>
-    if cur.contains e then joinEndpoints cur rest
-    else if cur.length < Consts.groupEndpointsPerFabric then joinEndpoints (cur ++ [e]) rest
+    if cur.contains e then xJoinEndpoints cur rest
+    else if cur.length < Consts.groupEndpointsPerFabric then xJoinEndpoints (cur ++ [e]) rest
     else (cur, true)
 
 /-- what `groupcast_join` does to the entry once it has it -/
-def joinEntry (x : XGroup) (eps : List Nat) (replace : Bool) : XGroup × Bool :=
-  let cur := if replace then [] else x.g.endpoints
-  let r := joinEndpoints cur eps
-  ({ g := { x.g with endpoints := r.1 }, managed := true }, r.2)
+def joinEntry (x : GroupMapping) (eps : List Nat) (replace : Bool) : GroupMapping × Bool :=
+  let cur := if replace then [] else x.endpoints
+  let r := xJoinEndpoints cur eps
+  ({ x with endpoints := r.1, managed := true }, r.2)
 
 /-- `Groups::groupcast_join(group_id, endpoints, replace, mcast_policy)` (of the policy only
 "is some" is kept: after the two `if`s it always is). The table is returned also on failure:
 the entry has then been created / upgraded / cleared / partly filled. -/
-def xGroupsJoin (gs : List XGroup) (gid : Nat) (eps : List Nat) (replace : Bool) : List XGroup × Except CfgErr Unit :=
-  let pushed : Option (List XGroup) :=
+def xGroupsJoin (gs : List GroupMapping) (gid : Nat) (eps : List Nat) (replace : Bool) : List GroupMapping × Except CfgErr Unit :=
+  let pushed : Option (List GroupMapping) :=
     match xGroupsFind gs gid with
     | some _ => some gs
     | none =>
       if gs.length < Consts.maxGroupsPerFabric then
-        some (gs ++ [{ g := { groupId := gid, endpoints := [], hasAuxAcl := some false }, managed := true }])
+        some (gs ++ [{ groupId := gid, endpoints := [], hasAuxAcl := some false, managed := true }])
       else none
   match pushed with
   | none => (gs, .error .resourceExhausted)
@@ -296,16 +275,16 @@ def xGroupsJoin (gs : List XGroup) (gid : Nat) (eps : List Nat) (replace : Bool)
       if overflow then .error .resourceExhausted else .ok ())
 
 /-- `Groups::groupcast_remove(group_id)` -/
-def xGroupsCastRemove (gs : List XGroup) (gid : Nat) : List XGroup × Bool :=
-  let gs1 := gs.filter (fun x => x.g.groupId != gid)
+def xGroupsCastRemove (gs : List GroupMapping) (gid : Nat) : List GroupMapping × Bool :=
+  let gs1 := gs.filter (fun x => x.groupId != gid)
   (gs1, gs.length != gs1.length)
 
 /-- `Groups::set_has_aux_acl(group_id, v)`: `false` also when there is no such group -/
-def xGroupsSetHasAux (gs : List XGroup) (gid : Nat) (v : Bool) : List XGroup × Bool :=
+def xGroupsSetHasAux (gs : List GroupMapping) (gid : Nat) (v : Bool) : List GroupMapping × Bool :=
   match xGroupsFind gs gid with
   | none => (gs, false)
   | some x =>
-    (xGroupsUpdFirst gs gid (fun y => { y with g := { y.g with hasAuxAcl := some v } }), x.g.hasAux != v)
+    (xGroupsUpdFirst gs gid (fun y => { y with hasAuxAcl := some v }), x.hasAux != v)
 
 /-! ## persistence of a fabric -/
 
@@ -327,23 +306,23 @@ def Entry.persisted (e : Entry) : Option Entry :=
   | none => none
 
 /-- a fabric written to and read back from its TLV form (`Fabric: ToTLV, FromTLV`) -/
-def XFabric.persisted (f : XFabric) : Option XFabric :=
+def Fabric.persisted (f : Fabric) : Option Fabric :=
   if f.acl.all (fun e => e.persisted.isSome) then some { f with acl := f.acl.filterMap Entry.persisted }
   else none
 
 /-- the key-value store restricted to the fabric keys: key (`FABRIC_KEYS_START + idx`) ↦ fabric -/
-abbrev FabStore := List (Nat × XFabric)
+abbrev FabStore := List (Nat × Fabric)
 
-def FabStore.get (s : FabStore) (k : Nat) : Option XFabric := (s.find? (fun kv => kv.1 == k)).map (·.2)
+def FabStore.get (s : FabStore) (k : Nat) : Option Fabric := (s.find? (fun kv => kv.1 == k)).map (·.2)
 def FabStore.erase (s : FabStore) (k : Nat) : FabStore := s.filter (fun kv => kv.1 != k)
-def FabStore.put (s : FabStore) (k : Nat) (f : XFabric) : FabStore := s.erase k ++ [(k, f)]
+def FabStore.put (s : FabStore) (k : Nat) (f : Fabric) : FabStore := s.erase k ++ [(k, f)]
 
 /-! ## `Fabrics` -/
 
-def xGet (s : List XFabric) (i : Nat) : Option XFabric := s.find? (fun f => f.fabIdx == i)
+def xGet (s : List Fabric) (i : Nat) : Option Fabric := s.find? (fun f => f.fabIdx == i)
 
 /-- the fabric found by `fabric_mut(i)` replaced by its mutated value -/
-def xSet (s : List XFabric) (i : Nat) (f' : XFabric) : List XFabric :=
+def xSet (s : List Fabric) (i : Nat) (f' : Fabric) : List Fabric :=
   match s with
   | [] => []
   | f :: rest => if f.fabIdx == i then f' :: rest else f :: xSet rest i f'
@@ -357,7 +336,7 @@ def initialAcl (idx : Nat) (admin : Option Nat) : List Entry :=
 
 /-- the whole configuration: the fabric table and the fabric records of the key-value store -/
 structure Cfg where
-  fabrics : List XFabric := []
+  fabrics : List Fabric := []
   store : FabStore := []
 deriving Repr, Inhabited
 
@@ -372,7 +351,7 @@ deriving Repr, Inhabited
 
 /-- `Fabrics::add_with_post_init` (`admin = some s`: `Fabrics::add(.., case_admin_subject = s)`) -/
 def Cfg.fabAdd (c : Cfg) (admin : Option Nat) : Cfg × Res :=
-  match nextFabIdx (proj c.fabrics) with
+  match nextFabIdx c.fabrics with
   | none => (c, .err .resourceExhausted)
   | some i =>
     if c.fabrics.length < Consts.maxFabrics then
@@ -386,7 +365,7 @@ def Cfg.fabRemove (c : Cfg) (i : Nat) : Cfg × Res :=
   | some _ => ({ c with fabrics := c.fabrics.filter (fun f => f.fabIdx != i) }, .ok)
 
 /-- `fabrics.fabric_mut(i)?` followed by a mutator of the fabric that leaves it unchanged on error -/
-def Cfg.onFabric (c : Cfg) (i : Nat) (op : XFabric → Except CfgErr (XFabric × Res)) : Cfg × Res :=
+def Cfg.onFabric (c : Cfg) (i : Nat) (op : Fabric → Except CfgErr (Fabric × Res)) : Cfg × Res :=
   match xGet c.fabrics i with
   | none => (c, .err .notFound)
   | some f =>
@@ -396,7 +375,7 @@ def Cfg.onFabric (c : Cfg) (i : Nat) (op : XFabric → Except CfgErr (XFabric ×
 
 /-- `fabrics.fabric_mut(i)?.groups_mut()` followed by a mutator of the group table (which may have
 changed the table also when it fails) -/
-def Cfg.onGroups (c : Cfg) (i : Nat) (op : List XGroup → List XGroup × Res) : Cfg × Res :=
+def Cfg.onGroups (c : Cfg) (i : Nat) (op : List GroupMapping → List GroupMapping × Res) : Cfg × Res :=
   match xGet c.fabrics i with
   | none => (c, .err .notFound)
   | some f =>
@@ -416,7 +395,7 @@ def Cfg.persistStore (c : Cfg) (i : Nat) : Cfg × Res :=
 def Cfg.persistRemove (c : Cfg) (i : Nat) : Cfg × Res := ({ c with store := c.store.erase i }, .ok)
 
 /-- `Fabrics::add_load(k, store)`: a stored record is pushed (bounded), an absent one is skipped -/
-def addLoad (fabrics : List XFabric) (store : FabStore) (k : Nat) : Except CfgErr (List XFabric) :=
+def addLoad (fabrics : List Fabric) (store : FabStore) (k : Nat) : Except CfgErr (List Fabric) :=
   match store.get k with
   | none => .ok fabrics
   | some f =>
@@ -424,7 +403,7 @@ def addLoad (fabrics : List XFabric) (store : FabStore) (k : Nat) : Except CfgEr
 
 /-- the loop `for fab_idx in 1..=255 { self.add_load(fab_idx, ..)?; }`; on failure the records
 loaded so far stay -/
-def loadLoop (store : FabStore) : List Nat → List XFabric → List XFabric × Res
+def loadLoop (store : FabStore) : List Nat → List Fabric → List Fabric × Res
   | [], acc => (acc, .ok)
   | k :: rest, acc =>
     match addLoad acc store k with
@@ -437,7 +416,7 @@ def Cfg.loadPersist (c : Cfg) : Cfg × Res :=
   ({ c with fabrics := r.1 }, r.2)
 
 /-- `if fabrics.get(i).is_some() { fabrics.remove(i)? }` -/
-def dropFabric (fabrics : List XFabric) (i : Nat) : List XFabric :=
+def dropFabric (fabrics : List Fabric) (i : Nat) : List Fabric :=
   match xGet fabrics i with
   | some _ => fabrics.filter (fun f => f.fabIdx != i)
   | none => fabrics
@@ -486,11 +465,11 @@ def resOfExcept {α : Type} (f : α → Res) : Except CfgErr α → Res
 def CfgOp.apply (c : Cfg) : CfgOp → Cfg × Res
   | .fabAdd admin => c.fabAdd admin
   | .fabRemove i => c.fabRemove i
-  | .aclAdd i e => c.onFabric i (fun f => (f.aclAdd e).map (fun r => (r.1, Res.idx r.2)))
-  | .aclAddInit i init => c.onFabric i (fun f => (f.aclAddInit init.run).map (fun r => (r.1, Res.idx r.2)))
-  | .aclUpdate i idx e => c.onFabric i (fun f => (f.aclUpdate idx e).map (fun f' => (f', Res.ok)))
-  | .aclUpdateInit i idx init => c.onFabric i (fun f => (f.aclUpdateInit idx init.run).map (fun f' => (f', Res.ok)))
-  | .aclRemove i idx => c.onFabric i (fun f => (f.aclRemove idx).map (fun f' => (f', Res.ok)))
+  | .aclAdd i e => c.onFabric i (fun f => (f.xAclAdd e).map (fun r => (r.1, Res.idx r.2)))
+  | .aclAddInit i init => c.onFabric i (fun f => (f.xAclAddInit init.run).map (fun r => (r.1, Res.idx r.2)))
+  | .aclUpdate i idx e => c.onFabric i (fun f => (f.xAclUpdate idx e).map (fun f' => (f', Res.ok)))
+  | .aclUpdateInit i idx init => c.onFabric i (fun f => (f.xAclUpdateInit idx init.run).map (fun f' => (f', Res.ok)))
+  | .aclRemove i idx => c.onFabric i (fun f => (f.xAclRemove idx).map (fun f' => (f', Res.ok)))
   | .aclRemoveAll i => c.onFabric i (fun f => .ok (f.aclRemoveAll, Res.ok))
   | .handlerWrite i w =>
     match xGet c.fabrics i with
